@@ -677,9 +677,15 @@ Qed.
 Lemma zseq_ge lo n x : In x (zseq lo n) -> lo <= x.
 Proof. revert lo; induction n as [|n IH]; intros lo H; cbn in H; [contradiction|]. destruct H as [->|H]; [lia|]. apply IH in H. lia. Qed.
 
+Lemma set_style_rows_WF col s : 1 <= col -> forall k rw sh, 1 <= rw -> WF sh -> WF (set_style_rows col s k rw sh).
+Proof.
+  intros Hc. induction k as [|k IH]; intros rw sh Hr HW; cbn [set_style_rows]; [assumption|].
+  apply IH; [lia|]. apply (set_style_spec col rw s sh HW Hc Hr).
+Qed.
+
 Lemma step_WF sh o : WF sh -> op_ok o -> WF (step sh o).
 Proof.
-  intros HW Hok. destruct o as [col rw t v|col rw f|col rw s|rw s|c1 r1 c2 r2|]; cbn [step op_ok] in *.
+  intros HW Hok. destruct o as [col rw t v|col rw f|col rw s|rw s|col s|c1 r1 c2 r2|]; cbn [step op_ok] in *.
   - destruct Hok as [Hc Hr]. pose proof (set_value_spec col rw t v sh HW Hc Hr) as H.
     destruct (anchor (merges sh) col rw). apply H.
   - destruct Hok as [Hc Hr]. pose proof (set_formula_spec col rw f sh HW Hc Hr) as H.
@@ -696,6 +702,8 @@ Proof.
       intros j c Hj. rewrite nth_error_map in Hj. destruct (nth_error (r_cells r0) j) as [c0|] eqn:E0; [|discriminate].
       cbn in Hj. inversion Hj; subst c. cbn. apply (H2 j c0 E0).
     + apply (HI1 i r Hi).
+  - (* column style *)
+    unfold set_col_style. apply set_style_rows_WF; [assumption|lia|]. destruct HW as [HI HM]. split; assumption.
   - (* merge *)
     destruct Hok as [Hc Hr]. unfold merge_cell.
     match goal with |- context [clear_cells ?cs sh] => set (covered := cs) end.
